@@ -563,6 +563,20 @@ func init() {
 			// a plain (non-Sync) batch bypasses the per-write policy: an explicit Sync()/Close() after it must still flush it
 			add("always-std-plainbatch-sync", merge(base, p("k", 2, "ops", opBatch|opSync|opRestart, "sync", syncAlways, "bsync", 0, "vlens", 1)))
 			add("threshold-mmap-plainbatch-sync", merge(base, p("k", 2, "ops", opBatch|opSync|opRestart, "sync", syncThreshold, "bsync", 0, "vlens", 1, "io", 1)))
+			// every (policy, batch Sync option, back-end) combination over the full call alphabet
+			for _, sy := range []int{syncAlways, syncThreshold} {
+				for bs := 0; bs <= 1; bs++ {
+					for io := 0; io <= 1; io++ {
+						ops := opPut | opSync | opBatch
+						if tier != "quick" {
+							ops |= opDelete
+						} else if bs == 1 {
+							continue // quick tier: Sync batches are covered by the jobs above
+						}
+						add(fmt.Sprintf("all-calls-sync%d-bsync%d-io%d", sy, bs, io), merge(base, p("k", 3, "ops", ops, "bmax", 1, "sync", sy, "bsync", bs, "io", io, "vlens", 1, "dfs_lo", 80, "dfs_hi", 80)))
+					}
+				}
+			}
 			add("always-mmap", merge(base, p("k", k, "ops", opPut|opDelete|opSync|opRestart, "sync", syncAlways, "io", 1)))
 			add("threshold-mmap", merge(base, p("k", k, "ops", opPut|opDelete|opRestart, "sync", syncThreshold, "io", 1)))
 			if tier == "thorough" {
@@ -573,7 +587,7 @@ func init() {
 			return js
 		},
 		Assumptions: []string{"what fsync/msync do in the kernel is trusted; observed is whether they were ISSUED before the call returned (FS model: per-file unsynced byte ranges tagged with the public call that wrote them)",
-			"mmap: bytes changed through the mapping since the last msync are found by comparing the mapping with a shadow taken at msync time (a zero byte written over a zero byte is not counted); mmap jobs use no batches",
+			"mmap: bytes changed through the mapping since the last msync are found by comparing the mapping with a shadow taken at msync time (a zero byte written over a zero byte is not counted); stores through a mapping are charged to the call (tag) during which they happened",
 			"violations of this property are NOT replayed natively (fsync is invisible through the API); the replay directory holds the concrete operation sequence and the FS op log instead"},
 		Bounds: map[string]string{
 			"quick":    "K=2-3 calls over {Put,Delete,Sync,Close+Open,Sync batch<=2}, SyncStrategy Always/Threshold(BytesPerSync symbolic in [1,200])/No, DataFileSize symbolic in [60,120] (rotations), std and mmap; policy checked at every return",
